@@ -1,6 +1,8 @@
 package chainsim
 
 import (
+	stakingtypes "github.com/cosmos/cosmos-sdk/x/staking/types"
+	"sort"
 	"fmt"
 	"time"
 
@@ -49,6 +51,12 @@ func drawFeedsParams(e *Env) feedstypes.Params {
 
 // FeederActor: validators submit signal prices.
 type FeederActor struct {
+	planSig    string
+	planStatus map[string]feedstypes.SignalPriceStatus
+	planLeft   int
+	Bystander  *world.Account // an account no model tracks; may delegate to validators to set up exact power splits
+	forcePlan  bool
+	hold       map[string]int
 	lastSent map[string]int64 // validator -> unix time of last accepted-looking submission
 	price    map[string]uint64
 	Lazy     map[string]int // validator -> permille of skipping a due submission
@@ -68,15 +76,66 @@ func (a *FeederActor) stepMarket(e *Env, feeds []feedstypes.Feed) {
 	if x, ok := e.Shared["tunnel.shadow"].(*TunnelShadow); ok {
 		ts = x
 	}
+	// coordinated move: one signal of a tunnel crosses its hard deviation while its siblings sit around their soft deviations
+	// (the packet must then carry exactly the hard one plus the siblings at or above soft)
+	coordinated := map[string]bool{}
+	if ts != nil && e.Ch.Bool("feeder.price.coordinated", 150) {
+		var ids []uint64
+		for _, id := range ts.sortedIDs() {
+			n := 0
+			for _, sd := range ts.Tunnels[id].Signals {
+				lp, has := ts.Tunnels[id].Latest[sd.SignalID]
+				if _, known := a.price[sd.SignalID]; known && has && lp.Price != 0 && lp.Price <= 1<<50 {
+					n++
+				}
+			}
+			if n >= 2 && ts.Tunnels[id].Active {
+				ids = append(ids, id)
+			}
+		}
+		if len(ids) > 0 {
+			t := ts.Tunnels[ids[e.Ch.Intn("feeder.price.coord.tunnel", len(ids))]]
+			first := true
+			for _, sd := range t.Signals {
+				lp, has := t.Latest[sd.SignalID]
+				if _, known := a.price[sd.SignalID]; !known || !has || lp.Price == 0 || lp.Price > 1<<50 {
+					continue
+				}
+				var bps uint64
+				if first {
+					bps = sd.HardDeviationBPS + uint64(e.Ch.Intn("feeder.price.coord.hard", 2))
+					first = false
+				} else {
+					bps = []uint64{sd.SoftDeviationBPS, sd.SoftDeviationBPS + 1, sd.SoftDeviationBPS - 1, 0}[e.Ch.Intn("feeder.price.coord.soft", 4)]
+				}
+				delta := (lp.Price*bps + 9999) / 10000
+				if bps == 0 {
+					delta = 0
+				}
+				a.price[sd.SignalID] = lp.Price + delta
+				coordinated[sd.SignalID] = true
+			}
+			if len(coordinated) > 1 {
+				e.St.Probe("coordinated_hard_plus_soft_price_move")
+			}
+		}
+	}
 	for _, f := range feeds {
 		sig := f.SignalID
+		if coordinated[sig] {
+			continue
+		}
 		p, ok := a.price[sig]
 		if !ok {
 			p = uint64(10000 * (1 + e.Ch.Intn("feeder.price.init", 500)))
 			a.price[sig] = p
 			continue
 		}
-		switch e.Ch.Weighted("feeder.price.move", []int{45, 12, 12, 25, 2, 2, 2}) {
+		if a.hold[sig] > 0 {
+			a.hold[sig]-- // a boundary price stays long enough to become the feed price and be signed
+			continue
+		}
+		switch e.Ch.Weighted("feeder.price.move", []int{45, 12, 12, 25, 2, 2, 2, 4}) {
 		case 1:
 			p += uint64(e.Ch.Intn("feeder.price.up", 500))
 		case 2:
@@ -113,9 +172,127 @@ func (a *FeederActor) stepMarket(e *Env, feeds []feedstypes.Feed) {
 			p = 1
 		case 6:
 			p = ^uint64(0)
+		case 7:
+			// power-of-two family: where bit-length based arithmetic (tick math, fixed-width encodings) changes regime
+			k := 1 + e.Ch.Intn("feeder.price.pow2", 63)
+			p = uint64(1) << uint(k)
+			switch e.Ch.Intn("feeder.price.pow2off", 4) {
+			case 1:
+				p++
+			case 2:
+				p--
+			case 3:
+				if k > 16 {
+					p += e.Ch.U64("feeder.price.pow2low") >> uint(64-(k-16))
+				}
+			}
+			if a.hold == nil {
+				a.hold = map[string]int{}
+			}
+			a.hold[sig] = 4 + e.Ch.Intn("feeder.price.pow2hold", 10)
+			e.St.Probe("price_in_power_of_two_family")
 		}
 		a.price[sig] = p
 	}
+}
+
+// stepStatusPlan occasionally fixes, for one signal and for a while, which validators report AVAILABLE and which do not, such
+// that the available (or the unsupported) token power sits exactly at, one unit below or one unit above half of the total: the
+// boundaries of the "at least half available / more than half unsupported" rules. Subsets are enumerated (<= 7 validators).
+func (a *FeederActor) stepStatusPlan(e *Env, feeds []feedstypes.Feed) {
+	if a.planLeft > 0 {
+		a.planLeft--
+		if a.planLeft == 0 {
+			a.planSig, a.planStatus = "", nil
+		}
+		return
+	}
+	if e.Draining || len(feeds) == 0 || len(e.W.Vals) > 10 || (!a.forcePlan && !e.Ch.Bool("feeder.statusplan", 40)) {
+		return
+	}
+	forced := a.forcePlan
+	a.forcePlan = false
+	ctx := e.Ctx()
+	var keys []string
+	var pow []uint64
+	total := uint64(0)
+	for _, v := range e.W.Vals {
+		val, err := e.App().StakingKeeper.GetValidator(ctx, v.Val)
+		if err != nil || !val.IsBonded() || !e.App().OracleKeeper.GetValidatorStatus(ctx, v.Val).IsActive {
+			continue
+		}
+		t := val.GetTokens().Uint64()
+		if t > 1<<61 {
+			return
+		}
+		keys = append(keys, v.Val.String())
+		pow = append(pow, t)
+		total += t
+	}
+	if len(keys) < 2 {
+		return
+	}
+	type cand struct {
+		mask int
+		dist uint64
+	}
+	var best []cand
+	for mask := 1; mask < 1<<len(keys)-1; mask++ {
+		var sum uint64
+		for i := range keys {
+			if mask&(1<<i) != 0 {
+				sum += pow[i]
+			}
+		}
+		d := 2*sum - total
+		if 2*sum < total {
+			d = total - 2*sum
+		}
+		best = append(best, cand{mask, d})
+	}
+	sort.SliceStable(best, func(i, j int) bool { return best[i].dist < best[j].dist })
+	if len(best) > 4 {
+		best = best[:4]
+	}
+	if best[0].dist > 1 && !forced && a.Bystander != nil && e.Ch.Bool("feeder.statusplan.balance", 600) {
+		// no subset sits at half: a bystander delegates exactly the difference (+-1) to one validator of the closest subset,
+		// and the plan is made once that delegation is in
+		mask := best[0].mask
+		var sum uint64
+		for i := range keys {
+			if mask&(1<<i) != 0 {
+				sum += pow[i]
+			}
+		}
+		if 2*sum > total {
+			mask, sum = (1<<len(keys)-1)&^mask, total-sum
+		}
+		delta := int64(total-2*sum) + int64(e.Ch.Intn("feeder.statusplan.balance.off", 3)) - 1
+		if delta >= 1 && delta < 500_000_000_000 {
+			for i := range keys {
+				if mask&(1<<i) != 0 {
+					u := a.Bystander
+					e.Submit(u, "balance_delegate", nil, stakingtypes.NewMsgDelegate(u.Addr.String(), keys[i], sdk.NewInt64Coin("uband", delta)))
+					e.St.Probe("bystander_delegation_aimed_at_half_power")
+					a.forcePlan, a.planLeft = true, 2
+					return
+				}
+			}
+		}
+	}
+	c := best[e.Ch.Intn("feeder.statusplan.pick", len(best))]
+	other := []feedstypes.SignalPriceStatus{feedstypes.SIGNAL_PRICE_STATUS_UNAVAILABLE, feedstypes.SIGNAL_PRICE_STATUS_UNSUPPORTED}[e.Ch.Intn("feeder.statusplan.other", 2)]
+	a.planSig = feeds[e.Ch.Intn("feeder.statusplan.sig", len(feeds))].SignalID
+	a.planStatus = map[string]feedstypes.SignalPriceStatus{}
+	for i, k := range keys {
+		if c.mask&(1<<i) != 0 {
+			a.planStatus[k] = feedstypes.SIGNAL_PRICE_STATUS_AVAILABLE
+		} else {
+			a.planStatus[k] = other
+		}
+	}
+	a.planLeft = 6 + e.Ch.Intn("feeder.statusplan.life", 14)
+	e.St.Probe(fmt.Sprintf("status_split_aimed_at_half_power(|2*available-total|=%s)", []string{"0", "1", "2", ">=3"}[min(c.dist, 3)]))
 }
 
 func (a *FeederActor) nextPrice(e *Env, sig string) uint64 {
@@ -139,6 +316,7 @@ func (a *FeederActor) Act(e *Env) {
 	}
 	next := e.W.Time.Add(time.Second).Unix()
 	a.stepMarket(e, cf.Feeds)
+	a.stepStatusPlan(e, cf.Feeds)
 	for _, v := range e.W.Vals {
 		key := v.Val.String()
 		byz := !e.Draining && a.ByzP > 0 && e.Ch.Bool("feeder.byz", a.ByzP)
@@ -167,6 +345,9 @@ func (a *FeederActor) Act(e *Env) {
 				st = feedstypes.SIGNAL_PRICE_STATUS_UNAVAILABLE
 			case 2:
 				st = feedstypes.SIGNAL_PRICE_STATUS_UNSUPPORTED
+			}
+			if ps, ok := a.planStatus[key]; ok && f.SignalID == a.planSig {
+				st = ps
 			}
 			if e.Draining {
 				st = feedstypes.SIGNAL_PRICE_STATUS_AVAILABLE
